@@ -12,6 +12,9 @@
 use crate::harness::{
     self,
     Kind,
+    Val,
+    pick_route,
+    value_status,
     ident,
     ident_str,
     make_preconf,
@@ -41,14 +44,15 @@ use vcommon::{
     *,
 };
 
-pub const RULE: &str = "case = one tx-status-manager service (status_cache_ttl in {0,1ms,20ms,1s,5s}) driven by a seeded history over 4 tx ids of \
-publications (all three write routes, single/batched), paused-clock advances chosen around the ttl boundary (ttl-1ms, ttl, ttl+1ms, ttl/2, 1ms, 2ttl+1ms) \
+pub const RULE: &str = "case = one tx-status-manager service (status_cache_ttl in {0,1ms,2.75ms,20ms,1s,1.5s,2.75s,5s}) driven by a seeded history over 4 tx ids of \
+publications (all three write routes, single/batched; values are not unique: identical re-publication of the latest value, earlier values coming back, identical entries in one batch, Submitted values shared between txs), paused-clock advances chosen around the ttl boundary (ttl-1ms, ttl, ttl+1ms, ttl/2, 1ms, 2ttl+1ms) \
 and get_status queries; evaluation = one judged query; a query is non-trivial (distinct key = ttl, kind of the latest publication, kind before it, \
 number of publications for the tx (capped at 4), age class of the latest publication relative to the ttl, observed outcome) if the tx had >= 2 \
 publications or its latest status is non-Submitted with age >= ttl/2";
 
 pub const ASSUMPTIONS: &[&str] = &[
     "the cache reads tokio::time::Instant (checked in manager.rs), so the paused tokio clock controls expiry exactly; the harness never advances time while writes are un-acknowledged",
+    "only status_cache_ttl decides forgetting; subscription_ttl is always configured to a different value (half of the cases ttl/4) and must not matter to the cache",
     "a get_status round trip is a barrier: queued writes are handled before reads (biased select)",
     "the property bounds forgetting only from below: a non-Submitted status that is still returned after the ttl is accepted (counted as retained_past_ttl)",
     "a panic/stop of the service is reported as inconclusive, not as a violation",
@@ -63,6 +67,7 @@ struct PubRec {
     at: Instant,
     full: Option<TransactionStatus>,
     route: &'static str,
+    val: Val,
 }
 
 #[derive(Debug, PartialEq, Eq, Clone, Copy)]
@@ -157,11 +162,17 @@ pub fn run_case(report: &Report, shard_seed: u64, case: u64, p: &Params) {
 
 #[allow(unused_assignments)]
 async fn case_body(report: &Report, rng: &mut StdRng, shard_seed: u64, case: u64, p: &Params) {
-    let ttl_ms = *pick(rng, &[0u64, 1, 1, 20, 20, 20, 1000, 1000, 5000, 5000]);
-    let ttl = Duration::from_millis(ttl_ms);
+    // microseconds; 2750us has a sub-millisecond part, 1.5s and 2.75s have sub-second parts
+    // (a ttl or an age truncated to whole ms / s would forget early or late)
+    let ttl_us = *pick(rng, &[0u64, 1_000, 2_750, 20_000, 20_000, 1_000_000, 1_500_000, 1_500_000, 2_750_000, 5_000_000]);
+    let ttl = Duration::from_micros(ttl_us);
+    let ttl_ms = ttl_us as f64 / 1000.0;
+    // subscription_ttl is always different from status_cache_ttl, in half of the cases much
+    // shorter: only status_cache_ttl may decide when a status is forgotten
+    let sub_ttl = if chance(rng, 50) { Duration::from_micros((ttl_us / 4).max(500)) } else { Duration::from_secs(600) };
     let config = Config {
         max_tx_update_subscriptions: 8,
-        subscription_ttl: Duration::from_secs(600),
+        subscription_ttl: sub_ttl,
         status_cache_ttl: ttl,
         metrics: false,
     };
@@ -212,6 +223,17 @@ async fn case_body(report: &Report, rng: &mut StdRng, shard_seed: u64, case: u64
                                 got = Some(make_status(Kind::Success, 424_242, tx_id(tx))); // fabricated
                                 perturbed = true;
                             }
+                            4 if got.is_some()
+                                && h.len() >= 2
+                                && h[h.len() - 1].kind != Kind::Submitted
+                                && h[h.len() - 2].val.serial == h[h.len() - 1].val.serial
+                                && now.duration_since(h[h.len() - 2].at) >= ttl
+                                && now.duration_since(h[h.len() - 1].at) < ttl =>
+                            {
+                                // an identical re-publication that did not refresh the time-to-live
+                                got = None;
+                                perturbed = true;
+                            }
                             _ => {}
                         }
                         if perturbed {
@@ -257,6 +279,12 @@ async fn case_body(report: &Report, rng: &mut StdRng, shard_seed: u64, case: u64
                                 }
                             } else {
                                 report.count("queries.must_return.within_ttl");
+                                if h.last().is_some_and(|l| now.duration_since(l.at) >= sub_ttl) {
+                                    report.count("queries.must_return.within_ttl_but_older_than_subscription_ttl");
+                                }
+                                if h.len() >= 2 && h[h.len() - 2].val.serial == h[h.len() - 1].val.serial && now.duration_since(h[h.len() - 2].at) >= ttl {
+                                    report.count("queries.must_return.refreshed_by_identical_value");
+                                }
                                 if h.len() >= 2 && now.duration_since(h[h.len() - 2].at) >= ttl {
                                     report.count("queries.must_return.within_ttl_after_expired_predecessor");
                                 }
@@ -271,7 +299,7 @@ async fn case_body(report: &Report, rng: &mut StdRng, shard_seed: u64, case: u64
                         || h.last().is_some_and(|l| l.kind != Kind::Submitted && now.duration_since(l.at) * 2 >= ttl);
                     if nontrivial {
                         report.distinct(&(
-                            ttl_ms,
+                            ttl_us,
                             h.last().map(|l| l.kind),
                             if h.len() >= 2 { Some(h[h.len() - 2].kind) } else { None },
                             h.len().min(4),
@@ -283,7 +311,7 @@ async fn case_body(report: &Report, rng: &mut StdRng, shard_seed: u64, case: u64
                     if let Some((sig, why)) = verdict {
                         let signature = if p.selftest > 0 { format!("selftest:{sig}") } else { sig.to_string() };
                         let detail = format!(
-                            "get_status(tx{tx}) with status_cache_ttl {ttl:?}: {why}; publications for tx (kind#serial@age): {:?}",
+                            "get_status(tx{tx}) with status_cache_ttl {ttl:?} (subscription_ttl {sub_ttl:?}): {why}; publications for tx (kind#serial@age): {:?}",
                             h.iter().rev().take(6).rev()
                                 .map(|r| format!("{}#{}@{:?} via {}", r.kind.name(), r.serial, now.duration_since(r.at), r.route))
                                 .collect::<Vec<_>>()
@@ -302,36 +330,62 @@ async fn case_body(report: &Report, rng: &mut StdRng, shard_seed: u64, case: u64
         }
         let r = rng.gen_range(0..100u32);
         if r < 42 {
-            // ---- publication(s)
-            let n = if chance(rng, 15) { rng.gen_range(2..=3usize) } else { 1 };
+            // ---- publication(s); values are not unique: the latest value of a tx is
+            // re-published identically (which must refresh its time-to-live), earlier
+            // values come back, and different txs share identical Submitted values
             let tx0 = rng.gen_range(0..NTX);
-            let kind0 = pick_kind(rng);
-            let route: &'static str = match kind0 {
-                Kind::Squeezed if chance(rng, 50) => "update_statuses",
-                k if k.is_preconfirmation() && chance(rng, 60) => "update_preconfirmations",
-                _ => "update_status",
-            };
-            let mut entries: Vec<(usize, Kind)> = vec![(tx0, kind0)];
-            if route != "update_status" {
-                for _ in 1..n {
-                    let tx = if chance(rng, 30) { tx0 } else { rng.gen_range(0..NTX) };
-                    let kind = if route == "update_statuses" {
-                        Kind::Squeezed
-                    } else {
-                        *pick(rng, &[Kind::PreSuccess, Kind::PreFailure, Kind::PreSqueezed])
-                    };
-                    entries.push((tx, kind));
+            let m = rng.gen_range(0..100u32);
+            let (route, entries): (&'static str, Vec<(usize, Val, &'static str)>) = if m < 15 && !hist[tx0].is_empty() {
+                let val = hist[tx0].last().unwrap().val.clone();
+                (pick_route(rng, &val), vec![(tx0, val, "repeat_of_latest")])
+            } else if m < 20 && hist[tx0].len() >= 2 {
+                let l = hist[tx0].len();
+                let val = hist[tx0][l - 1 - rng.gen_range(0..l.min(4))].val.clone();
+                (pick_route(rng, &val), vec![(tx0, val, "repeat_of_earlier")])
+            } else {
+                let n = if chance(rng, 15) { rng.gen_range(2..=3usize) } else { 1 };
+                let kind0 = pick_kind(rng);
+                let mut serial0 = next_serial;
+                next_serial += 1;
+                let mut tag0 = "fresh";
+                if kind0 == Kind::Submitted && chance(rng, 10) {
+                    let other = (tx0 + 1 + rng.gen_range(0..NTX - 1)) % NTX;
+                    if let Some(p) = hist[other].iter().rev().find(|p| p.val.kind == Kind::Submitted) {
+                        serial0 = p.val.serial;
+                        tag0 = "value_shared_with_other_tx";
+                    }
                 }
-            }
+                let val0 = Val { kind: kind0, serial: serial0, preconf_family: kind0.is_preconfirmation() && chance(rng, 60) };
+                let route = pick_route(rng, &val0);
+                let mut entries = vec![(tx0, val0, tag0)];
+                if route != "update_status" {
+                    for _ in 1..n {
+                        if chance(rng, 20) {
+                            let (tx, val, _) = entries.last().cloned().unwrap();
+                            entries.push((tx, val, "repeat_in_batch"));
+                            continue;
+                        }
+                        let tx = if chance(rng, 30) { tx0 } else { rng.gen_range(0..NTX) };
+                        let kind = if route == "update_statuses" {
+                            Kind::Squeezed
+                        } else {
+                            *pick(rng, &[Kind::PreSuccess, Kind::PreFailure, Kind::PreSqueezed])
+                        };
+                        let serial = next_serial;
+                        next_serial += 1;
+                        entries.push((tx, Val { kind, serial, preconf_family: route == "update_preconfirmations" }, "fresh"));
+                    }
+                }
+                (route, entries)
+            };
             let now = Instant::now();
             let mut squeezed = Vec::new();
             let mut preconfs = Vec::new();
-            for (tx, kind) in entries.iter().copied() {
-                let serial = next_serial;
-                next_serial += 1;
+            for (tx, val, tag) in entries.iter().cloned() {
+                let (kind, serial) = (val.kind, val.serial);
                 let full = match route {
                     "update_status" => {
-                        let st = make_status(kind, serial, tx_id(tx));
+                        let st = value_status(&val, tx);
                         svc.shared.update_status(tx_id(tx), st.clone());
                         Some(st)
                     }
@@ -348,9 +402,13 @@ async fn case_body(report: &Report, rng: &mut StdRng, shard_seed: u64, case: u64
                 if hist[tx].last().is_some_and(|l| now.duration_since(l.at) < ttl) {
                     report.count("published.replacing_unexpired_status");
                 }
-                hist[tx].push(PubRec { kind, serial, at: now, full, route });
+                if hist[tx].last().is_some_and(|l| l.val.serial == serial && !now.duration_since(l.at).is_zero()) {
+                    report.count("published.identical_value_refreshing_ttl");
+                }
+                hist[tx].push(PubRec { kind, serial, at: now, full, route, val });
                 report.count(&format!("published.{}", kind.name()));
-                log.push(format!("pub tx{tx} {}#{serial} via {route}", kind.name()));
+                report.count(&format!("published.value.{tag}"));
+                log.push(format!("pub tx{tx} {}#{serial} via {route} ({tag})", kind.name()));
             }
             if !squeezed.is_empty() {
                 svc.shared.update_statuses(squeezed);
@@ -447,6 +505,11 @@ pub fn run(args: &Args, report: &Report) {
         report.require("queries.age.=ttl", 2_000);
         report.require("published.replacing_unexpired_status", 20_000);
         report.require("ops.publish.update_statuses", 500);
+        report.require("queries.must_return.within_ttl_but_older_than_subscription_ttl", 5_000);
+        report.require("published.value.repeat_of_latest", 10_000);
+        report.require("published.value.repeat_of_earlier", 3_000);
+        report.require("published.identical_value_refreshing_ttl", 2_000);
+        report.require("queries.must_return.refreshed_by_identical_value", 1_000);
         report.require("ops.publish.update_preconfirmations", 2_000);
     }
 }
